@@ -3,6 +3,7 @@ let () =
   match Sys.argv.(1) with
   | "c02step" -> C02drv.main ()
   | "c02run" -> C02drv.run_main ()
+  | "c15trace" -> C02drv.trace_main ()
   | "asmbatch" -> Asmdrv.main ()
   | "asmoracle" -> Asmoracle.main ()
   | "climodel" -> Clidrv.main ()
